@@ -374,7 +374,7 @@ def real_alloc(m: int, proto):
 #   var  = {"kind": auto|req|dyn|dyn2|abi|mv, "home": routine (0 = main), "slot": k|None, "slot2": k|None,
 #           "m1": marker, "m2": marker|None}
 # ------------------------------------------------------------------------------------------------
-SLOT_COST = {"auto": 1, "req": 1, "dyn": 2, "dyn2": 3, "abi": 1, "mv": 2}
+SLOT_COST = {"auto": 1, "req": 1, "dyn": 2, "dyn2": 3, "abi": 1, "mv": 2, "dynonly": 2}
 PYTEAL_ERRORS = (pt.TealInternalError, pt.TealInputError, pt.TealCompileError, pt.TealTypeError)
 
 
@@ -388,7 +388,7 @@ def gen_spec(r, scenario: str, big: bool) -> dict:
     if scenario == "fits":
         kinds += ["abi", "abi"]
     if version >= 5:
-        kinds += ["dyn", "dyn2"]
+        kinds += ["dyn", "dyn2", "dynonly"]
     free = list(range(256))
     r.shuffle(free)
     if scenario == "toomany":
@@ -415,7 +415,7 @@ def gen_spec(r, scenario: str, big: bool) -> dict:
         if k == "req" and not free:
             k = "auto"
         v = {"kind": k, "home": 0 if r.random() < p_main else r.randrange(1, nsub + 1), "slot": None, "slot2": None, "m1": 0, "m2": None}
-        if k == "req" or (k in ("dyn", "dyn2") and r.random() < 0.7 and len(free) > 2):
+        if k == "req" or (k in ("dyn", "dyn2", "dynonly") and r.random() < 0.7 and len(free) > 2):
             v["slot"] = free.pop()
             if k == "dyn2":
                 v["slot2"] = free.pop()
@@ -440,7 +440,7 @@ def gen_spec(r, scenario: str, big: bool) -> dict:
             vars_.append({"kind": "req", "home": 0, "slot": free.pop(), "slot2": None, "m1": 0, "m2": None})
             cands = [vars_[-1]]
         orig = r.choice(cands)
-        clone = {"kind": r.choice(["req", "req", "dyn"] if version >= 5 else ["req"]), "home": r.randrange(0, nsub + 1),
+        clone = {"kind": r.choice(["req", "req", "dyn", "dynonly"] if version >= 5 else ["req"]), "home": r.randrange(0, nsub + 1),
                  "slot": orig["slot"], "slot2": None, "m1": 0, "m2": None}
         vars_.insert(r.randrange(len(vars_) + 1), clone)
         for rt in range(1, nsub + 1):
@@ -480,6 +480,9 @@ def build_and_compile(spec: dict):
             return (pt.ScratchVar(T, v["slot"]),)
         if k == "dyn":
             return (pt.DynamicScratchVar(T), pt.ScratchVar(T, v["slot"]) if v["slot"] is not None else pt.ScratchVar(T))
+        if k == "dynonly":
+            # the target is reached ONLY through the cursor (its own load/store never appear in the program)
+            return (pt.DynamicScratchVar(T), pt.ScratchVar(T, v["slot"]) if v["slot"] is not None else pt.ScratchVar(T))
         if k == "dyn2":
             a = pt.ScratchVar(T, v["slot"]) if v["slot"] is not None else pt.ScratchVar(T)
             b = pt.ScratchVar(T, v["slot2"]) if v["slot2"] is not None else pt.ScratchVar(T)
@@ -497,6 +500,8 @@ def build_and_compile(spec: dict):
         # (validateSlots wants a direct store before the direct load of the target, so the targets are initialised)
         if k == "dyn":
             return [o[1].store(pt.Int(v["m1"] + 3)), o[0].set_index(o[1]), o[0].store(m)]
+        if k == "dynonly":
+            return [o[0].set_index(o[1]), o[0].store(m)]
         if k == "dyn2":
             return [o[1].store(pt.Int(v["m1"] + 3)), o[2].store(pt.Int(v["m1"] + 3)),
                     o[0].set_index(o[1]), o[0].store(m), o[0].set_index(o[2]), o[0].store(pt.Int(v["m1"] + 2))]
@@ -510,7 +515,7 @@ def build_and_compile(spec: dict):
         k, m = v["kind"], pt.Int(v["m2"])
         if k in ("auto", "req"):
             return [o[0].store(m)]
-        if k in ("dyn", "dyn2"):
+        if k in ("dyn", "dyn2", "dynonly"):
             return [o[0].store(m)]  # through the index: overwrites the slot currently pointed at
         return [o[0].set(m)]
 
@@ -526,6 +531,11 @@ def build_and_compile(spec: dict):
             return [A(o[0].get() == last)]
         if k == "mv":
             return [A(o[0].hasValue()), A(o[0].value() == last)]
+        if k == "dynonly":
+            out = [A(o[0].load() == last)]
+            if v["slot"] is not None:
+                out.append(A(o[0].index() == pt.Int(v["slot"])))
+            return out
         if k == "dyn":
             out = [A(o[1].load() == last), A(o[0].load() == last), A(o[0].index() == o[1].index())]
             if v["slot"] is not None:
@@ -713,6 +723,8 @@ def expected_scratch_count(spec: dict, d: Driver):
     for x in spec["vars"]:
         if x["kind"] == "abi" and x["home"] != 0 and fp_on:
             per_sub_abi[x["home"]] = per_sub_abi.get(x["home"], 0) + 1
+        elif x["kind"] == "dynonly":
+            n += 1      # the target never appears in a load/store line (only as `int k`); its cell is checked by execution
         else:
             n += SLOT_COST[x["kind"]]
     for m in per_sub_abi.values():
